@@ -133,4 +133,40 @@ theorem C05_occurrence_names :
   ∧ splitFirst "number__2".toList ['_', '_'] = "number".toList
   ∧ splitFirst "strings_snake__10".toList ['_', '_'] = "strings_snake".toList := by decide
 
+-- the cross-checks themselves, on the regenerated tables (kernel evaluation) ---------------------------
+
+def outcome {V} (C : Cls V) (text fmt : String) (strict : Bool) : Option Str :=
+  match Engine.parse C text.toList (some fmt.toList) strict with
+  | .ok o => some (C.string o)
+  | .error .fmtValue => none
+  | .error _ => some "FOREIGN".toList
+
+/-- strict mode cross-checks different directives of one field; non-strict keeps the first statement -/
+theorem C05_strict_cross_checks :
+    outcome Datetime.cls "2023 09 Sep" "%Y %m %b" true = some "2023-09-01 00:00:00.000000".toList
+  ∧ outcome Datetime.cls "2023 09 Oct" "%Y %m %b" true = none
+  ∧ outcome Datetime.cls "2023 09 Oct" "%Y %m %b" false = some "2023-09-01 00:00:00.000000".toList
+  ∧ outcome Datetime.cls "2023 251 09 08" "%Y %j %m %d" true = some "2023-09-08 00:00:00.000000".toList
+  ∧ outcome Datetime.cls "2023 252 09 08" "%Y %j %m %d" true = none
+  ∧ outcome Datetime.cls "19 07 PM" "%H %I %p" true = some "1900-01-01 19:00:00.000000".toList
+  ∧ outcome Datetime.cls "18 07 PM" "%H %I %p" true = none
+  ∧ outcome Serial.cls "5 00000101" "%n %b" true = some "5".toList
+  ∧ outcome Serial.cls "5 00000110" "%n %b" true = none
+  ∧ outcome Serial.cls "1000 1,000 1_000" "%n %c %u" true = some "1000".toList := by decide +kernel
+
+/-- checked in non-strict mode too: a lone weekday, AM/PM, bits against bytes, initials / flat /
+    vowel-less against the name -/
+theorem C05_always_checked :
+    outcome Datetime.cls "2023-09-08 5" "%Y-%m-%d %w" false = some "2023-09-08 00:00:00.000000".toList
+  ∧ outcome Datetime.cls "2023-09-08 4" "%Y-%m-%d %w" false = none
+  ∧ outcome Datetime.cls "19 PM" "%H %p" false = some "1900-01-01 19:00:00.000000".toList
+  ∧ outcome Datetime.cls "19 AM" "%H %p" false = none
+  ∧ outcome Storage.cls "8192 1KB" "%b %K" false = some "8192".toList
+  ∧ outcome Storage.cls "8200 1KB" "%b %K" false = none
+  ∧ outcome Naming.cls "data engineer/de" "%n/%a" false = some "data engineer".toList
+  ∧ outcome Naming.cls "data engineer/dx" "%n/%a" false = none
+  ∧ outcome Naming.cls "data_engineer/dataengineer" "%s/%f" false = some "data engineer".toList
+  ∧ outcome Naming.cls "data_engineer/dtngnr" "%s/%v" false = some "data engineer".toList
+  ∧ outcome Naming.cls "data_engineer/dtngnx" "%s/%v" false = none := by decide +kernel
+
 end C05
